@@ -115,6 +115,22 @@ pub fn pool(seed: u64) -> Pool {
         });
         texts.insert(name.to_string(), text);
     }
+    // m5: a second osu! map (a window of the osu! fixture: other density / conversion difficulty than m1)
+    if let Ok(t) = std::fs::read_to_string("/repo/resources/2785319.osu") {
+        let ls: Vec<&str> = t.lines().collect();
+        if let Some(ho) = ls.iter().position(|l| l.trim() == "[HitObjects]") {
+            // a dense window: its conversion difficulty class (> 4) differs from the one of the sparse synthetic m1 (about 2)
+            let n = 70usize;
+            let start = ho + 1 + (seed as usize * 53 + 200) % (ls.len() - ho - 1 - n).max(1);
+            let mut keep: Vec<&str> = ls[..=ho].to_vec();
+            keep.extend(ls[start..(start + n).min(ls.len())].iter());
+            texts.insert("m5".to_string(), keep.join("\n"));
+        }
+    }
+    texts.entry("m5".to_string()).or_insert_with(|| {
+        let o = random_objs(&mut rng, "osu", 20);
+        concretize("osu", &o, &profile(seed as u32 + 5))
+    });
     let all = cfgs("quick");
     let mut c = HashMap::new();
     c.insert("A".to_string(), all[1].clone());
@@ -122,6 +138,8 @@ pub fn pool(seed: u64) -> Pool {
     c.insert("-".to_string(), all[0].clone());
     // lazer mods with settings: taiko DifficultyAdjust scroll speed, and a different overall difficulty
     c.insert("C".to_string(), Cfg { mods: 0, da_scroll: Some(2.0), od: Some((9.5, false)), random_seed: Some(7), ..Default::default() });
+    // the lazer-only Invert mod (mania)
+    c.insert("I".to_string(), Cfg::default().with_acronyms("IN"));
     c.insert("D".to_string(), Cfg { mods: 16, da_scroll: Some(0.5), od: Some((2.0, false)), clock_rate: Some(0.8), random_seed: Some(1234), ..Default::default() });
     Pool { texts, cfgs: c }
 }
@@ -206,16 +224,37 @@ pub fn record_main(args: &[String]) -> i32 {
     let histories: Vec<History> = read_ndjson(&args[0]).into_iter().map(|v| serde_json::from_value(v).expect("history shape")).collect();
     let pool = pool(seed);
     let mut lines = Vec::new();
-    // one Runner per history (fresh gradual handles), maps are decoded once per history as well: "fresh vs reused" values
+    // one Runner per history (fresh gradual handles), maps are decoded once per history as well: "fresh vs reused" values.
+    // The processes differ in what precedes a history on its thread, so that state left behind by EARLIER histories (statics,
+    // thread-locals, caches keyed by an address) cannot be the same everywhere: process 0 runs the histories in model order,
+    // process 1 in reverse order, process 2 gives every history a fresh thread; further processes repeat the pattern.
+    let pnum: usize = proc_id.parse().unwrap_or(0);
+    let order: Vec<usize> = if pnum % 3 == 1 { (0..histories.len()).rev().collect() } else { (0..histories.len()).collect() };
+    let fresh_threads = pnum % 3 == 2;
     let mut shared = Runner::new(&pool);
-    for (hi, h) in histories.iter().enumerate() {
+    for hi in order {
+        let h = &histories[hi];
         let fresh_maps = hi % 2 == 0;
-        let mut own = Runner::new(&pool);
-        let r: &mut Runner = if fresh_maps { &mut own } else { &mut shared };
-        r.grads.clear();
-        for c in &h.calls {
-            let (key, dg, panic) = r.call(c);
-            lines.push(json!({"proc": proc_id, "hist": hi, "key": key, "digest": dg, "panic": panic, "map": c.m, "mapdigest": r.map_digest(&c.m)}).to_string());
+        let run = |r: &mut Runner| -> Vec<String> {
+            r.grads.clear();
+            let mut out = Vec::new();
+            for c in &h.calls {
+                let (key, dg, panic) = r.call(c);
+                out.push(json!({"proc": proc_id, "hist": hi, "key": key, "digest": dg, "panic": panic, "map": c.m, "mapdigest": r.map_digest(&c.m)}).to_string());
+            }
+            out
+        };
+        if fresh_threads {
+            let got = std::thread::scope(|s| s.spawn(|| { let mut own = Runner::new(&pool); run(&mut own) }).join());
+            match got {
+                Ok(v) => lines.extend(v),
+                Err(_) => lines.push(json!({"proc": proc_id, "hist": hi, "key": "thread", "digest": "panic", "panic": true, "map": "-", "mapdigest": "-"}).to_string()),
+            }
+        } else if fresh_maps {
+            let mut own = Runner::new(&pool);
+            lines.extend(run(&mut own));
+        } else {
+            lines.extend(run(&mut shared));
         }
     }
     let n = lines.len();
@@ -363,8 +402,8 @@ pub fn threads_main(args: &[String]) -> i32 {
     // stress: the plain jobs on many threads at once, no coordination
     // every (map, settings, operation) combination, so that any state shared between calls with DIFFERENT inputs shows
     let mut plain: Vec<Call> = Vec::new();
-    for m in ["m1", "m2", "m3", "m4"] {
-        for cfg in ["A", "B", "C", "D"] {
+    for m in ["m1", "m2", "m3", "m4", "m5"] {
+        for cfg in ["A", "B", "C", "D", "I"] {
             for op in ["calc", "strains", "perf"] {
                 plain.push(Call { op: op.into(), m: m.into(), cfg: cfg.into(), h: "-".into() });
             }
